@@ -27,11 +27,12 @@ fn classify(msg: &str) -> String {
 
 macro_rules! case {
     ($m:ident, $val:expr, $sexpr:expr) => {{
-        for path in ["once", "multi", "n2"] {
+        for path in ["once", "multi", "n2", "al1"] {
             let v = $val;
             let u = match path {
                 "once" => Unimock::new(OutMock::$m.some_call(matching!()).returns(v)),
                 "multi" => Unimock::new(OutMock::$m.each_call(matching!()).returns(v)),
+                "al1" => Unimock::new(OutMock::$m.some_call(matching!()).returns(v).at_least_times(1)),
                 _ => Unimock::new(OutMock::$m.some_call(matching!()).returns(v).n_times(2)),
             }
             .no_verify_in_drop();
